@@ -275,9 +275,14 @@ def intFromPrim (bits n v : Nat) : Option (List Nat) :=
   | 0 => none
   | n + 1 => some (intResize (n + 1) [signExtendToWord bits v])
 
-/-- `Int::<n>::from_i128`: `Uint::<2>::from_u128(v as u128).as_int().resize()` — NO limb-count assertion:
-    for `n = 1` the value is silently truncated to its low limb. -/
-def intFromI128 (n v : Nat) : List Nat :=
+/-- `Int::<n>::from_i128`: `assert!(LIMBS >= 2)` (since /repo 77eeede, as `Uint::from_u128`; `none` = the panic), then
+    `Uint::<2>::from_u128(v as u128).as_int().resize()`. -/
+def intFromI128 (n v : Nat) : Option (List Nat) :=
+  if n < 2 then none else some (intResize n [v % B, v / B % B])
+
+/-- the constructor BEFORE /repo 77eeede (kept for the record, not used by the driver): no limb-count assertion, for
+    `n = 1` the value was silently truncated to its low limb. -/
+def intFromI128Old (n v : Nat) : List Nat :=
   intResize n [v % B, v / B % B]
 
 /-- `Uint::<LIMBS>::resize::<T>` -/
